@@ -28,6 +28,13 @@ def fixed_array_len(view, f, bb):
     return None
 
 
+LAZY_ADAPTORS = {"by_ref", "rev", "map", "filter", "filter_map", "take", "skip", "zip", "chain", "enumerate", "peekable", "into_iter", "iter",
+                 "cloned", "copied", "take_while", "skip_while", "map_while", "inspect", "fuse", "step_by", "flat_map", "flatten", "scan",
+                 "size_hint", "new", "from", "into", "drop", "drop_in_place", "forget", "as_mut", "as_ref", "deref", "deref_mut", "borrow",
+                 "borrow_mut", "clone", "clone_from", "replace", "swap", "take", "fmt", "write", "read", "assume_init", "len", "is_empty",
+                 "branch", "from_residual", "from_output", "unwrap", "expect", "ok", "some", "is_some", "is_none", "map_err", "and_then"}
+
+
 class Cost:
     def __init__(self, view):
         self.view = view
@@ -96,6 +103,18 @@ class Cost:
                 why = "comparison (line %d)" % ci.span["line"]
             else:
                 return BULK, "external call `%s` compares priorities an unknown number of times (line %d)" % (ci.key, ci.span["line"])
+        # a foreign generic function instantiated with one of the crate's own iterator types drives that iterator: `collect`,
+        # `extend`, `fold`.. call its `next` / `next_back` once per element, the lazy adaptors not at all
+        t = f.term(bb)
+        itc, itwhy = self.driven_iterator_cost(t, stack)
+        if itc > ZERO:
+            nm = ci.name
+            if nm in ("next", "next_back"):
+                c = max(c, itc)
+                why = why or itwhy
+            elif nm not in LAZY_ADAPTORS:
+                rep = BULK if itc <= CONST else (NLOGN if itc == LOG else UNKNOWN)
+                return max(c, rep), "`%s` drives %s once per element (line %d)" % (ci.key, itwhy, ci.span["line"])
         for cl in ci.closures:
             if cl in self.prog.fns:
                 cc = self.fn_cost(cl, stack)
@@ -110,6 +129,34 @@ class Cost:
                     else:
                         return max(BULK, cc), "closure with comparisons passed to `%s`" % ci.key
         return c, why
+
+    def driven_iterator_cost(self, t, stack):
+        """largest cost of `next` / `next_back` of the crate iterator types a foreign call is instantiated with"""
+        fu = t.get("func") or {}
+        paths = set()
+
+        def scan(ty):
+            if not isinstance(ty, dict):
+                return
+            if ty.get("k") == "adt" and ty.get("krate") == self.prog.j.get("crate"):
+                paths.add(ty.get("path"))
+            for a in ty.get("args") or []:
+                scan(a)
+            for a in ty.get("elems") or []:
+                scan(a)
+            if ty.get("inner"):
+                scan(ty["inner"])
+        for g in fu.get("gargs") or []:
+            scan(g)
+        scan(fu.get("self_ty"))
+        best, why = ZERO, ""
+        for p in sorted(x for x in paths if x):
+            for k in ("<%s as Iterator>::next" % p, "<%s as DoubleEndedIterator>::next_back" % p):
+                if k in self.prog.fns and k not in stack:
+                    c = self.fn_cost(k, stack)
+                    if c > best:
+                        best, why = c, "%s (%s)" % (short(k), NAMES[c])
+        return best, why
 
     def fn_cost(self, key, stack=()):
         if key in self.memo:
